@@ -315,8 +315,16 @@ let locks = function
     (* what the model of the repaired code holds at these accesses *)
     let model_write op = List.for_all (fun h -> h = HWrite) (held_at (mop_prog true O op) is_write) in
     let model_read = List.for_all (fun h -> h <> HNone) (held_at (mop_prog true O OpSenderFor) is_begin) in
+    let is_peers = function ABegin OPeers -> true | _ -> false in
+    (* the metadata path looks the peer up (twice: NotifyNewBundle, transitivity) under the write lock it
+       keeps for the store that follows; SenderForBundle reads both maps under the read lock *)
+    let model_peers_w = List.for_all (fun h -> h = HWrite) (held_at (mop_prog true O (OpImport two)) is_peers)
+                        && List.length (held_at (mop_prog true O (OpImport two)) is_peers) = 2 in
+    let model_peers_r = List.for_all (fun h -> h <> HNone) (held_at (mop_prog true O OpSenderFor) is_peers) in
     let sites = [("encounter.write", model_write (OpPeerAppeared two)); ("agePred.write", model_write (OpAge two));
-                 ("transitivity.write", model_write (OpImport two)); ("SenderForBundle.lookup", model_read)] in
+                 ("transitivity.write", model_write (OpImport two)); ("SenderForBundle.lookup", model_read);
+                 ("NotifyNewBundle.lookup", model_peers_w); ("transitivity.lookup", model_peers_w);
+                 ("SenderForBundle.compare", model_read && model_peers_r)] in
     let seen = ref [] and res = ref [] in
     List.iter (fun e -> match lst e with
         | [site; held] ->
@@ -349,7 +357,27 @@ let stress = function
     else [Propfail ("prophet.concurrent-crash", Printf.sprintf "child process ended with exit code %d (%s)" (s_int code) (atom what))]
   | _ -> raise (Bad "stress case")
 
+(* ---- (case n stress2 scenario exitcode what) : concurrent summary vectors in a child process ---- *)
+let stress2 = function
+  | [scen; code; what] ->
+    let scen = atom scen and what = atom what and code = s_int code in
+    (* sanity check of the extracted interleaving model on the operations of this scenario: several imports at
+       once next to the other operations never fault (theorem C19_no_concurrent_map_fault) *)
+    let two = nat_of_int 2 in
+    let ops = [OpImport two; OpImport two; OpImport two; OpPeerAppeared two; OpAge two; OpSenderFor] in
+    let sched = List.init 400 (fun i -> nat_of_int ((i * 5 + i / 7) mod 6)) in
+    if mrun (mthreads true ops) sched then [Mismatch "model: fault in the repaired interleaving model"]
+    else if code = 0 && what = "clean" then [Ok_ ["stress-" ^ scen ^ "-clean"]]
+    else if String.length what > 15 && String.sub what 0 15 = "concurrent-map-" then
+      [Propfail ("prophet.concurrent-map-fault." ^ scen ^ "." ^ String.sub what 15 (String.length what - 15),
+                 "child process died with Go's fatal concurrent map access error (" ^ what ^ ") while several goroutines delivered summary vectors of many peers (NotifyNewBundle) next to peers appearing / ageing / SenderForBundle / sendMetadata")]
+    else if what = "range" then
+      [Propfail ("prophet.concurrent-range." ^ scen, "after the concurrent deliveries a predictability held by the node is outside [0,1]")]
+    else [Propfail ("prophet.concurrent-crash." ^ scen, Printf.sprintf "child process ended with exit code %d (%s)" code what)]
+  | _ -> raise (Bad "stress2 case")
+
 let () =
+  register "C19stress" "stress2" stress2;
   register "C19arith" "seq" seq;
   register "C19arith" "vals" vals;
   register "C19core" "alias" alias;
